@@ -125,6 +125,8 @@ type program struct {
 	// optional signed-transaction context (nil: synthetic spending tx)
 	txBytes []byte // extended-format bytes of the spending tx
 	inIdx   int
+	// scriptsOnly: execute through WithScripts (no transaction context)
+	scriptsOnly bool
 }
 
 // spendingTx builds the context the reference tests use (fresh objects every call).
@@ -164,9 +166,15 @@ func execProgram(p *program, dbg interpreter.Debugger) outcome {
 }
 
 // execProgramOn executes on a given (possibly shared) engine value.
-func execProgramOn(eng interpreter.Engine, p *program, dbg interpreter.Debugger) outcome {
-	tx, idx, prev := p.context()
-	opts := []interpreter.ExecutionOptionFunc{interpreter.WithTx(tx, idx, prev), interpreter.WithFlags(p.flags)}
+func execProgramOn(eng interpreter.Engine, p *program, dbg interpreter.Debugger, extra ...interpreter.ExecutionOptionFunc) outcome {
+	var opts []interpreter.ExecutionOptionFunc
+	if p.scriptsOnly {
+		opts = []interpreter.ExecutionOptionFunc{interpreter.WithScripts(scriptPtr(p.lock), scriptPtr(p.unlock)), interpreter.WithFlags(p.flags)}
+	} else {
+		tx, idx, prev := p.context()
+		opts = []interpreter.ExecutionOptionFunc{interpreter.WithTx(tx, idx, prev), interpreter.WithFlags(p.flags)}
+	}
+	opts = append(opts, extra...)
 	if dbg != nil {
 		opts = append(opts, interpreter.WithDebugger(dbg))
 	}
@@ -342,12 +350,13 @@ func (w *c19World) Run(c *kernel.RunCtx) {
 	c.Begin("scribble")
 	seeded := scribbleMode{on: true, kinds: uint32(c.U64n(1 << uint(evKinds))), fields: uint32(1 + c.Choose(31)), style: c.Choose(4)}
 	nAttach := 1 + c.Choose(3)
+	resumeAt := c.Choose(1 << 16)
 	c.End()
-	checkProgram(c, p, seeded, nAttach)
+	checkProgram(c, p, seeded, nAttach, resumeAt)
 }
 
 // checkProgram runs one program under every observer and applies all oracles.
-func checkProgram(c *kernel.RunCtx, p *program, seeded scribbleMode, nAttach int) {
+func checkProgram(c *kernel.RunCtx, p *program, seeded scribbleMode, nAttach int, resumeAt int) {
 	site := "Execute"
 	const maxEvents = 60000
 	const maxVolume = 48 << 20
@@ -358,7 +367,7 @@ func checkProgram(c *kernel.RunCtx, p *program, seeded scribbleMode, nAttach int
 		c.Count("probe.skipped_oversized_program", 1)
 		return
 	}
-	rec := &recorder{max: maxEvents, maxVolume: maxVolume}
+	rec := &recorder{max: maxEvents, maxVolume: maxVolume, keep: true}
 	c.Exec()
 	o1 := execProgram(p, rec)
 	c.Logf("outcome none=%s recording=%s events=%d", o0, o1, len(rec.events))
@@ -439,6 +448,65 @@ func checkProgram(c *kernel.RunCtx, p *program, seeded scribbleMode, nAttach int
 		}
 		if d := diffHistories(rec.events, r.events); d != "" {
 			c.Fail("isolation", site, "history recorded under a %s debugger differs from the plain recording: %s (%s flags %x unlock %x lock %x)", v.name, d, p.src, uint32(p.flags), p.unlock, p.lock)
+			return
+		}
+	}
+	// resume: a BeforeStep snapshot is a faithful state — continuing from it gives the same rest of the run
+	var bsIdx []int
+	for i := range rec.events {
+		if rec.events[i].kind == evBS && i < len(rec.states) && rec.states[i] != nil {
+			bsIdx = append(bsIdx, i)
+		}
+	}
+	// Programs containing an opcode that rewrites its operand in place (BIN2NUM, LSHIFT, RSHIFT) are left out:
+	// through stack-item aliasing (C08's subject, present on the unchanged tree) the original run and a run
+	// restored from deep copies legitimately differ there.
+	inPlace := false
+	scan := func(ops []opSnap) {
+		for _, op := range ops {
+			if op.val == 0x81 || op.val == 0x98 || op.val == 0x99 {
+				inPlace = true
+			}
+		}
+	}
+	if len(rec.events) > 0 && rec.events[0].st != nil {
+		for _, ops := range rec.events[0].st.scripts {
+			scan(ops)
+		}
+	}
+	for i := range rec.events {
+		if st := rec.events[i].st; st != nil && len(st.scripts) > 2 {
+			scan(st.scripts[2]) // the P2SH redeem script
+			break
+		}
+	}
+	if len(bsIdx) > 0 && o0.class != "panic" && !inPlace {
+		k := bsIdx[resumeAt%len(bsIdx)]
+		// (one use of a fresh copy only: what WithState does to the object it is given — it adopts some of its
+		// slices — is not something C19 speaks about, and opcodes that rewrite operands in place would show
+		// through it; see DESIGN.md §11)
+		snapObj := cloneState(rec.states[k])
+		r := &recorder{max: maxEvents}
+		c.Exec()
+		o := execProgramOn(interpreter.NewEngine(), p, r, interpreter.WithState(snapObj))
+		c.Count("probe.resumed_from_snapshot", 1)
+		if !o0.same(o) {
+			c.Fail("resume", site, "resuming from the BeforeStep snapshot of callback %d gives %s, the original run gave %s (%s flags %x unlock %x lock %x)", k, o, o0, p.src, uint32(p.flags), p.unlock, p.lock)
+			return
+		}
+		first := -1
+		for i := range r.events {
+			if r.events[i].kind == evBS {
+				first = i
+				break
+			}
+		}
+		if first < 0 {
+			c.Fail("resume", site, "resumed run never reached a step (callback %d)", k)
+			return
+		}
+		if d := diffHistoriesLoose(rec.events[k:], r.events[first:]); d != "" {
+			c.Fail("resume", site, "the run resumed from the BeforeStep snapshot of callback %d diverges from the original: %s (%s flags %x unlock %x lock %x)", k, d, p.src, uint32(p.flags), p.unlock, p.lock)
 			return
 		}
 	}
